@@ -57,8 +57,9 @@ func (c *rollupCheck) poolFor(tier string, worker, nworkers int, seed uint64) []
 			delB := []int{17, 18, 19, 20, 2, 5, 18, 19}
 			out = append(out, dims{rollup.Deletion, 2 + t.Draw(3), delB[worker%len(delB)]}, dims{rollup.Insertion, 2 + t.Draw(8), 2 + t.Draw(5)},
 				dims{rollup.Insertion, 20 + t.Draw(13), 1}, dims{rollup.Deletion, 20 + t.Draw(12), 1})
-		} else if worker%4 == 0 {
-			out = append(out, dims{rollup.Deletion, 2, 18})
+		} else {
+			// hashed deletion message = 64+4*batch bytes: 132, 136 (exactly the Keccak rate), 140, and a 2-block insertion
+			out = append(out, []dims{{rollup.Deletion, 2, 18}, {rollup.Deletion, 2, 17}, {rollup.Deletion, 2, 19}, {rollup.Insertion, 3, 5}}[worker%4])
 		}
 	}
 	for i := range out {
